@@ -16,6 +16,7 @@ OVERLAY = {
     HS + "/zz_c19_mut_verif_test.go": "harness/overlay/httpauth/c19_mut_verif_test.go",
     HS + "/zz_c19_fmt_verif_test.go": "harness/overlay/httpauth/c19_fmt_verif_test.go",
     HS + "/zz_c19_cli_verif_test.go": "harness/overlay/httpauth/c19_cli_verif_test.go",
+    HS + "/zz_c19_cli2_verif_test.go": "harness/overlay/httpauth/c19_cli2_verif_test.go",
     HS + "/zz_c19_e2e_verif_test.go": "harness/overlay/httpauth/c19_e2e_verif_test.go",
     HS + "/zz_c19_hook_verif.go": "harness/overlay/httpauth/c19_hook_verif.go",
 }
@@ -61,7 +62,7 @@ def warm(ctx):
         ctx.obligations.append(("harness:compile", False, out[-1500:]))
 
 
-KIND = {1: "genDataToSign", 2: "header parser", 3: "request at a server", 4: "client handshake"}
+KIND = {1: "genDataToSign", 2: "header parser", 3: "request at a server", 4: "client handshake", 5: "AuthenticatedDo against a scripted server"}
 
 
 def describe(t):
@@ -71,11 +72,7 @@ def describe(t):
             d.update({"mode": {0: "handshake server", 1: "ServerPeerIDAuth over HTTP"}.get(t[1]), "server_key": t[2],
                       "secret": t[3], "token_ttl_ns": t[4], "hostname_atom": t[5], "now_ns": t[6]})
             # skip the table to find the header text
-            p = 13
-            n = t[p]; p += 1
-            for _ in range(n):
-                ln = t[p]; p += 1 + ln + 1
-                p = skip_oterm(t, p)
+            p = skip_table(t, 13)
             ln = t[p]
             d["header"] = bytes(x & 255 for x in t[p + 1:p + 1 + ln]).decode("latin1")[:600]
             d["answer"] = t[p + 1 + ln:p + 4 + ln]
@@ -110,10 +107,53 @@ def skip_oterm(t, p):
     return p + 1 if t[p] == 0 else skip_term(t, p + 1)
 
 
+def skip_bytes(t, p):
+    return p + 1 + t[p]
+
+
+def skip_table(t, p):
+    n = t[p]; p += 1
+    for _ in range(n):
+        p = skip_bytes(t, p) + 1
+        p = skip_oterm(t, p)
+    return p
+
+
+def skip_ohdr(t, p):
+    n = t[p]; p += 1
+    for _ in range(n):
+        p = skip_term(t, p + 1)
+    return p
+
+
+def reported_id(t):
+    """does the case contain a reported identity (server accept / client reports a server id)?"""
+    if t[0] == 3:
+        p = skip_bytes(t, skip_table(t, 13))
+        return (t[p] == 0 and t[p + 2] >= 0) if t[1] == 0 else t[p + 1] >= 0
+    if t[0] == 4:
+        p = 4
+        for _ in range(t[3]):
+            p = skip_bytes(t, skip_bytes(t, skip_table(t, p + 2)))
+            if t[p + 2] >= 0:
+                return True
+            p = skip_ohdr(t, p + 5)
+        return False
+    if t[0] == 5:
+        p = 4 + t[3]
+        n = t[p]; p += 1
+        for _ in range(n):
+            p = skip_bytes(t, skip_bytes(t, skip_table(t, p + 1)))
+        return t[p] >= 0
+    return False
+
+
 def nontrivial(line):
     # a case is non-trivial when an identity was reported (server accept / client reports an id)
-    t = line.split()
-    return t[0] in (b"3", b"4")
+    try:
+        return reported_id([int(x) for x in line.split()])
+    except Exception:
+        return False
 
 
 def key(tag, toks, d):
@@ -143,10 +183,16 @@ if __name__ == "__main__":
         spec_module="c19.Spec",
         harness=harness, warm=warm,
         nontrivial=nontrivial,
-        rule="valid handshakes of both flows run by the real client and server for rotating key types, then requests derived from them "
-             "(drop / duplicate / swap between sessions, clients, servers, hostnames, secrets / re-encode / alter every field of the state / "
-             "crafted signatures / cross use / time offsets -1s,-1ns,0,+1ns,+1s around both lifetimes / header formatting) and scripted "
-             "adversarial responses to the real client; every answer compared with the Coq model (conform_case) and judged by the "
-             "property monitor (monitor_case); plus byte-level cases for genDataToSign and the header parser",
+        rule="per round (4 quick / 72 thorough; the four key types rotate through the server and client roles): 14 valid handshakes of both "
+             "flows run by the real handshake client and server, then ~850 requests derived from them (drop / duplicate / swap each parameter "
+             "between sessions, clients, servers, hostnames, secrets; 7 re-encodings; every field of the opaque state and of the token altered, "
+             "re-MACed under a foreign secret and under the right one; crafted, reflected, cross-domain and transplanted signatures; cross use "
+             "of token and challenge; time offsets -1s,-1ns,0,+1ns,+1s around challengeTTL and TokenTTL; 20 header formattings), each run on the "
+             "real PeerIDAuthHandshakeServer (mode 0) and again over HTTP/HTTPS through the real ServerPeerIDAuth with 9 transport variants "
+             "(mode 1: Next callback argument, status, response header); 60 scripted adversarial response sequences to the real handshake "
+             "client (kind 4) and 60 to the real ClientPeerIDAuth.AuthenticatedDo over HTTP (kind 5); 2 real-client/real-server runs over HTTP "
+             "with stored and expired tokens; byte-level cases for genDataToSign (kind 1) and parsePeerIDAuthSchemeParams (kind 2). Every "
+             "answer is compared with the Coq model (conform_case) and judged by the property monitor (monitor_case). A case is non-trivial "
+             "when an identity was reported (server accept / client reports a server id); distinct = distinct case lines among those.",
         describe=describe, key=key, what=what, crosscheck=60,
     ))
